@@ -13,5 +13,5 @@ CONSTANTS
   NF = 2
   Modes = {0, 1}
   Full = FALSE
-INVARIANTS CountMatches RootsMatchNaive ProofsMatchNaive MemberSound SupplementSound HistorySound
+INVARIANTS CountMatches RootsMatchNaive ProofsMatchNaive MemberSound SupplementSound HistorySound CarrierSound
 CHECK_DEADLOCK FALSE
